@@ -47,6 +47,18 @@ func (db *DB) lockExec(ctx context.Context) error {
 	return db.lockExecReal(ctx)
 }
 
+// vxLockSyncHook: the same for the replica's upload lock: another upload pass (the
+// background monitor's) held the lock and finished before this caller got it.
+var vxLockSyncHook func()
+
+func (r *Replica) lockSync(ctx context.Context) error {
+	if h := vxLockSyncHook; h != nil {
+		vxLockSyncHook = nil
+		h()
+	}
+	return r.lockSyncReal(ctx)
+}
+
 func (db *DB) setPersistWAL(ctx context.Context) error {
 	if vxSQLHandler == nil {
 		return db.setPersistWALReal(ctx)
@@ -384,7 +396,13 @@ func VxC14Checkpoint() {
 	vxSyncStub, vxSyncStubCalls = true, 0
 	defer func() { vxSyncStub = false }()
 	exec := &syncExecutor{}
-	restarted, err := db.checkpointWithExecutorReal(context.Background(), mode, exec)
+	// the checkpoint runs inside a request (a `sync -wait` call, a SyncAndWait with a
+	// deadline) whose context ends when the request is answered; the long-running
+	// read transaction it re-acquires must outlive that request
+	ctx, endRequest := context.WithCancel(context.Background())
+	restarted, err := db.checkpointWithExecutorReal(ctx, mode, exec)
+	endRequest()
+	vx.Settle()
 	e.check(db)
 	vx.Assert("checkpoint-lock-released", db.chkMu.TryLock())
 	db.chkMu.Unlock()
